@@ -313,7 +313,7 @@ def run_units(pid, tier, units, deadline):
         for u in units:
             n = u.get('shards', NCPU)
             for i in range(n):
-                futs[ex.submit(run_shard, bins[u['name']], tier, i, n, max(5.0, deadline - tb), u.get('env'), u.get('extra', ()))] = u
+                futs[ex.submit(run_shard, bins[u['name']], u.get('tier_arg', tier), i, n, max(5.0, deadline - tb), u.get('env'), u.get('extra', ()))] = u
         for f in cf.as_completed(futs):
             u = futs[f]
             rc, out, err = f.result()
